@@ -855,17 +855,16 @@ func checkC15(c *Ctx) {
 	nw := 0
 	ok := walkAll(c, "C15.R3", send, func(p *Path) {
 		held := false
-		sealed := false
+		epoch, captureEpoch, sealEpoch := 0, -1, -2
 		var addrLoad ssa.Value
+		var captureIns ssa.Instruction
 		p.ForEach(func(i int, ins ssa.Instruction) bool {
 			if u, ok := ins.(*ssa.UnOp); ok && u.Op == token.MUL && endsInField(u, fAddr, false) {
 				if _, isFA := u.X.(*ssa.FieldAddr); isFA {
 					if !held {
 						fs.add("under-lock", "ss.remoteAddr is read without the session lock", ins, p)
 					}
-					if !sealed {
-						fs.add("after-seal", "the destination address is captured before the packet is sealed (an update between capture and seal would be missed)", ins, p)
-					}
+					captureEpoch, captureIns = epoch, ins
 					addrLoad = u
 				}
 			}
@@ -877,15 +876,21 @@ func checkC15(c *Ctx) {
 			case "(sync.Mutex).Lock":
 				if endsInField(call.Call.Args[0], fM, false) {
 					held = true
+					epoch++
 				}
 			case "(sync.Mutex).Unlock":
 				if endsInField(call.Call.Args[0], fM, false) {
 					held = false
 				}
 			case hopID("transport", "SessionState", "sealPacketLocked"):
-				sealed = true
+				sealEpoch = epoch
 			case hopID("transport", "UDPLike", "WriteMsgUDP"):
 				nw++
+				// the address that is used was read in the critical section that sealed the packet
+				// (within it the order does not matter: nobody else can move the address)
+				if captureIns != nil && captureEpoch != sealEpoch {
+					fs.add("after-seal", "the destination address is not captured in the critical section that seals the packet (an address update between the two would be missed, or the packet sealed for one peer address goes to another)", captureIns, p)
+				}
 				if len(call.Call.Args) != 3 || addrLoad == nil || p.Deref(call.Call.Args[2], i) != addrLoad {
 					fs.add("destination", "the session datagram is not sent to the address read from ss.remoteAddr", ins, p)
 				}
@@ -894,7 +899,7 @@ func checkC15(c *Ctx) {
 		})
 	})
 	if ok {
-		fs.report(c, "C15.R3", FuncName(send), []string{"under-lock", "after-seal", "destination"}, P.Pos(send.Pos()), "destination = ss.remoteAddr captured under the lock after sealing")
+		fs.report(c, "C15.R3", FuncName(send), []string{"under-lock", "after-seal", "destination"}, P.Pos(send.Pos()), "destination = ss.remoteAddr captured under the lock, in the critical section that seals")
 		c.Floor("C15.R3", "WriteMsgUDP sites on paths of Handle.send", nw, 1)
 	}
 	// no other session datagram writer in transport besides Handle.send, Server.writePacket (handshake), client handshake
